@@ -1,7 +1,8 @@
 (* C18 - line and width metrics are mutually consistent.
    Only statements here; proofs live in Proofs/LengthProofs.v and
-   Proofs/CellProofs.v. *)
-From Tab Require Import Model.Length Model.Cell Spec.Length Spec.CellText Proofs.LengthProofs Proofs.CellProofs.
+   Proofs/CellProofs.v (histories with failing item methods: Model/CellFail.v,
+   Proofs/CellFailProofs.v). *)
+From Tab Require Import Model.Length Model.Cell Model.CellFail Spec.Length Spec.CellText Proofs.LengthProofs Proofs.CellProofs Proofs.CellFailProofs.
 
 (* Lines never panics (its ss[len(ss)-1] is in range) ... *)
 Theorem c18_lines_total : forall s, lines s = Ok (lines_of s).
@@ -84,6 +85,40 @@ Corollary c18_layout_emit_agree : forall W e it, no_override W e it ->
   /\ cell_height c = Zlen (lines_of (cell_text c)).
 Proof. exact layout_emit_agree. Qed.
 Print Assumptions c18_layout_emit_agree.
+
+(* ---- long-lived cells and item methods that fail (Model/CellFail.v).
+   An Update() during which the item's own String / GoString / Error panics
+   reaches its caller as that panic (NewCell then hands back no cell) ... *)
+Theorem c18_failing_method_panics : forall W e f c,
+  update_fr W e f c = Panic <-> (f = true /\ calls_text_method e (c_raw c) = true).
+Proof. exact update_fr_panic. Qed.
+Print Assumptions c18_failing_method_panics.
+
+(* ... and leaves the cell's text, height and width exactly as they were. *)
+Theorem c18_failed_update_keeps : forall W e c, calls_text_method e (c_raw c) = true ->
+  let c' := update_f W e true c in
+  cell_text c' = cell_text c /\ cell_height c' = cell_height c /\ cell_width c' = cell_width c.
+Proof. exact failed_update_keeps. Qed.
+Print Assumptions c18_failed_update_keeps.
+
+(* So the cell clause holds after EVERY history of Update() calls on a cell
+   whose item never overrides its size - whatever state the item is in at each
+   call, and whether or not its text method fails there. *)
+Theorem c18_cell_metrics_history : forall W e0 it (h : list ustep),
+  no_override W e0 it ->
+  Forall (fun s : ustep => no_override W (fst s) it) h ->
+  cell_metric_ok W (run_updates W (new_cell W e0 it) h).
+Proof. exact history_metric. Qed.
+Print Assumptions c18_cell_metrics_history.
+
+Corollary c18_layout_emit_agree_history : forall W e0 it (h : list ustep),
+  no_override W e0 it ->
+  Forall (fun s : ustep => no_override W (fst s) it) h ->
+  let c := run_updates W (new_cell W e0 it) h in
+  cell_lines c = Ok (lines_of (cell_text c))
+  /\ layout_nlines c = Ok (Zlen (lines_of (cell_text c))).
+Proof. exact history_layout_emit. Qed.
+Print Assumptions c18_layout_emit_agree_history.
 
 (* non-vacuity: "a\n\xE4\xB8\x96\xCC\x81\n\n\xFF": lines, measures with a toy
    segmentation (every rune its own cluster except a combining mark, which
